@@ -100,10 +100,24 @@ def pending_window_sweep(rng):
     for j in range(1, 12):
         for extra in (0, 1):
             lines = ["setup watch 10", "setup style B", "t0 deliver 10", "t1 poll", "t1 poll", "t1 poll",
-                     "holdat t1 %d 80" % (129 + j), "delay t0 %d" % (129 + j)]
+                     "holdat t1 %d %d" % (129 + j, 129 + j + 80), "delay t0 %d" % (129 + j)]
             if extra:
                 lines.insert(3, "t0 deliver 10")
             out.append(lines + ["seed %d" % rng.randint(1, 2**31), "maxsteps 30000"])
+    return out
+
+
+def close_park_sweep(rng):
+    """close() runs to completion while a blocking consumer is parked after each of the own steps that lead up to
+    its blocking read: whatever close() decides to do must not depend on having seen the consumer "already
+    waiting" - a consumer that looked at the closed flag just before must still be woken"""
+    out = []
+    for j in range(128, 135):
+        out.append(["setup watch 10", "setup style B", "t0 forever", "t1 close", "delay t1 %d" % j, "holdat t0 %d %d" % (j, j + 60),
+                    "seed %d" % rng.randint(1, 2**31), "maxsteps 30000"])
+    for j in range(1, 5):
+        out.append(["setup watch 10", "setup style A", "t0 wait", "t1 close", "delay t1 %d" % j, "holdat t0 %d %d" % (j, j + 60),
+                    "seed %d" % rng.randint(1, 2**31), "maxsteps 30000"])
     return out
 
 
@@ -292,6 +306,8 @@ def monitors(r):
             consulted[tid] = ans
             if ans:
                 pipe -= 1
+        elif body == "ret done" and cur_call.get(tid, "") == "close":
+            close_done = True
         elif body == "ret done" and cur_call.get(tid, "").startswith("deliver"):
             # the delivery has returned: whatever it does to announce itself has been done
             sg = int(cur_call[tid].split()[1])
